@@ -41,6 +41,8 @@ type c11Split struct {
 	pos  int
 	cuts []int
 	step int
+	// eofWithLast: the last chunk is returned together with io.EOF (an io.Reader may do that)
+	eofWithLast bool
 }
 
 func (r *c11Split) Read(p []byte) (int, error) {
@@ -59,6 +61,9 @@ func (r *c11Split) Read(p []byte) (int, error) {
 	}
 	n := copy(p, r.data[r.pos:end])
 	r.pos += n
+	if r.eofWithLast && r.pos >= len(r.data) {
+		return n, io.EOF
+	}
 	return n, nil
 }
 
@@ -138,14 +143,16 @@ func c11File(c c11Case, items []rdbgen.Item) {
 				continue
 			}
 			for _, buffered := range []bool{false, true} {
-				var src io.Reader = &c11Split{data: file, cuts: []int{p}}
-				if buffered {
-					src = bufio.NewReaderSize(src, 16)
-				}
-				splits++
-				if e := c11ParseFrom(src); e != "" {
-					ev.Violate("C11|intact-rdb-rejected|split", fmt.Sprintf("intact RDB with one %s record (%d bytes) is rejected when the source delivers it with a short read at byte %d (bufio=%v): %s", c.Name, len(file), p, buffered, e), c)
-					return
+				for _, eofLast := range []bool{false, true} {
+					var src io.Reader = &c11Split{data: file, cuts: []int{p}, eofWithLast: eofLast}
+					if buffered {
+						src = bufio.NewReaderSize(src, 16)
+					}
+					splits++
+					if e := c11ParseFrom(src); e != "" {
+						ev.Violate("C11|intact-rdb-rejected|split", fmt.Sprintf("intact RDB with one %s record (%d bytes) is rejected when the source delivers it with a short read at byte %d (bufio=%v, last bytes together with io.EOF=%v): %s", c.Name, len(file), p, buffered, eofLast, e), c)
+						return
+					}
 				}
 			}
 		}
